@@ -252,12 +252,21 @@ def unit_excel_workbooks():
                 yield [["a" * 32768, "b"]]
                 yield [["c"] * 16384]
                 yield [["c"] * 16385]
+                # a refused row in the middle leaves no trace: the rows accepted before and after it read back as written
+                yield "refusals", [["a1", "b1", "c1"], ["a2", "x" * 40000, "c2"], ["a3", "b3", "c3"], ["a4", "caf\udce9", "c4"], ["a5", "b5", "c5"]]
             def rt_check(table):
                 from cutplace import errors
                 n[0] += 1; path = os.path.join(tmp, "r%d.xlsx" % n[0])
                 try:
                     with rowio.XlsxRowWriter(path) as w:
                         if table[0] == "write_rows": table = table[1]; w.write_rows(table)
+                        elif table[0] == "refusals":
+                            kept = []
+                            for r_ in table[1]:
+                                try: w.write_row(r_); kept.append(r_)
+                                except errors.DataFormatError: pass
+                            if len(kept) != 3: return {"expected": "rows 2 and 4 refused, 3 rows kept", "observed": kept}
+                            table = kept
                         else:
                             for r_ in table: w.write_row(r_)
                 except errors.DataFormatError: return None        # refused by the writer: nothing claimed to be written
